@@ -10,10 +10,13 @@ import kv
 RULE = ('random operation sequences over Polynomial and RationalPolynomial (add, sub, mul, neg, div, inv, pow via the real '
         'addition-chain schedule, int operands on either side, ==, == int, bool, compare) on a growing pool of reachable objects '
         'seeded with variables a..d and the constants 0, 1, -1, 2, [] ; each operation is one case.  Non-trivial = at least one '
-        'operand with a variable; distinct = distinct (operation, operands).')
+        'operand with a variable; distinct = distinct (operation, operands).  Every operation also re-checks that its operands are '
+        'unchanged.  Plus: quotients of single monomials with repeated variables (x^2 y / (x y^2)); accumulation idioms (acc = 0; acc += t, '
+        's = 1 * a; s += b, sum(...)) with every term re-checked; float coefficients that are exact binary fractions (incl. like terms that '
+        'nearly cancel, 2^50 + 1 against 2^50): exact rational value, zero tests and the coefficients of tosympy() (direct oracle).')
 TRUSTED = ['Model/Poly.v (hand-written after polynomial.py, statement by statement) tied by this structural correspondence',
            'variable names are abstracted to their rank in Python string order', 'sympy (expand / ==) as the oracle for tosympy']
-ASSUMPTIONS = ['integer coefficients only: float coefficients (created by dividing by a number) are outside the model and not generated',
+ASSUMPTIONS = ['the model and the theorems cover integer coefficients; float coefficients are exercised only where double-precision arithmetic is exact (direct oracle)',
                'AdditionChains search is an oracle: the multiplication schedule the real code uses is passed to the model as data']
 
 NAMES = ['a', 'b', 'c', 'd']
@@ -39,7 +42,7 @@ def cs(s):
 
 def run(R, tier):
     warnings.filterwarnings('ignore')
-    import sympy
+    import sympy, copy
     from kingdon.polynomial import Polynomial as P, RationalPolynomial as RP, compare
     from kingdon.codegen import AdditionChains
     rng = R.rng
@@ -102,6 +105,7 @@ def run(R, tier):
         c = rng.choice(ints)
         op = rng.choice(['add', 'sub', 'mul', 'mul', 'neg', 'addz', 'mulz', 'eq', 'eqz', 'bool', 'pow', 'cmp'])
         r = None
+        snap = (copy.deepcopy(x.args), copy.deepcopy(y.args), x, y)
         R.count('P.' + op)
         meta = {'cls': 'Polynomial', 'op': op, 'x': x.args, 'y': y.args, 'c': c}
         if op == 'add': r = x + y; chk('poly_eqb (padd %s %s) %s' % (cp(x), cp(y), cp(r)), meta); oracle(op, r, sp(x) + sp(y), (x, y))
@@ -124,6 +128,9 @@ def run(R, tier):
             if x.args and y.args:
                 ma, mb = rng.choice(x.args), rng.choice(y.args)
                 chk('Z.eqb (pcompare (Some %s) (Some %s)) (%s)' % (cm(ma), cm(mb), kv.Z(compare(ma, mb))), meta)
+        if snap[2].args != snap[0] or snap[3].args != snap[1]:
+            viol('operand-mutated', f'Polynomial {op} changed an operand: {snap[0]} -> {snap[2].args}, {snap[1]} -> {snap[3].args}', op=op, operands=[str(snap[0]), str(snap[1])])
+            snap[2].args[:] = copy.deepcopy(snap[0]); snap[3].args[:] = copy.deepcopy(snap[1])
         if r is not None:
             chk('invb %s' % cp(r), dict(meta, obs='invariant of the result'))
         R.case(('P', op, str(x.args), str(y.args), c), any(len(m) > 1 for m in x.args),
@@ -137,6 +144,15 @@ def run(R, tier):
         c = rng.choice(ints)
         op = rng.choice(['add', 'add', 'sub', 'mul', 'mul', 'div', 'neg', 'inv', 'addz', 'mulz', 'subz', 'rsubz', 'rdivz', 'eq', 'eqz', 'bool', 'pow'])
         r = None
+        if rng.random() < 0.2:                          # quotients of single monomials with repeated variables: x^2 y / (x y^2), ...
+            def mono():
+                m = RP([[rng.choice([1, 2, 3, -1])]])
+                for _ in range(rng.randint(1, 4)):
+                    m = m * RP.fromname(rng.choice(NAMES[:3]))
+                return m
+            x, y = mono() / mono(), mono() / mono() if rng.random() < 0.5 else mono()
+            R.count('RP.monomial-quotients')
+        rsnap = (copy.deepcopy((x.numer.args, x.denom.args)), copy.deepcopy((y.numer.args, y.denom.args)), x, y)
         R.count('RP.' + op)
         meta = {'cls': 'RationalPolynomial', 'op': op, 'x': [x.numer.args, x.denom.args], 'y': [y.numer.args, y.denom.args], 'c': c}
         nz = lambda o: not is_zero(o.numer.tosympy())
@@ -171,12 +187,91 @@ def run(R, tier):
             n = rng.choice([1, 2, 3, 4, 5, 6])
             if len(x.numer.args) + len(x.denom.args) > 4: n = min(n, 2)
             r = x ** n; chk('opt_eqb rpoly_eqb (rpow_chain %s %s) (Some %s)' % (cr(x), cs(sched(n)), cr(r)), dict(meta, n=n)); oracle(op, r, sp(x) ** n, (x, n))
+        if (rsnap[2].numer.args, rsnap[2].denom.args) != rsnap[0] or (rsnap[3].numer.args, rsnap[3].denom.args) != rsnap[1]:
+            viol('operand-mutated', f'RationalPolynomial {op} changed an operand: {rsnap[0]} -> {(rsnap[2].numer.args, rsnap[2].denom.args)}, '
+                                    f'{rsnap[1]} -> {(rsnap[3].numer.args, rsnap[3].denom.args)}', op=op, operands=[str(rsnap[0]), str(rsnap[1])])
         R.case(('RP', op, str(meta['x']), str(meta['y']), c), any(len(m) > 1 for m in x.numer.args),
                sample={'class': 'RationalPolynomial', 'op': op, 'x': str(x), 'y': str(y), 'c': c, 'result': str(r) if r is not None else None})
         if r is not None and ok_r(r) and len(r.numer.args) <= 8 and len(r.denom.args) <= 8 and r.denom.args and nz(RP(r.denom)):
             chk('invb %s && invb %s' % (cp(r.numer), cp(r.denom)), dict(meta, obs='invariant of the result'))
             rpool.append(r)
         if len(rpool) > 60: rpool.pop(rng.randrange(8, len(rpool)))
+    # accumulation idioms (`acc = 0; acc += t`, `s = 1 * a; s += b`, sum(...)): no term of the sum may change
+    from fractions import Fraction
+    for it in range(60 if tier == 'quick' else 1000):
+        cls = rng.choice(['P', 'RP'])
+        mk = (lambda: rng.choice(pool[9:] or pool)) if cls == 'P' else (lambda: rng.choice(rpool[8:] or rpool))
+        terms = [mk() for _ in range(rng.randint(2, 4))]
+        state = lambda o: copy.deepcopy(o.args if cls == 'P' else (o.numer.args, o.denom.args))
+        before = [state(t) for t in terms]
+        style = rng.choice(['acc=0', 'acc=1*t', 'sum', 'acc=+t'])
+        R.count('accumulate=' + style); R.case(('accumulate', cls, style, it), True)
+        try:
+            if style == 'sum':
+                acc = sum(terms)
+            else:
+                acc = 0 if style == 'acc=0' else (1 * terms[0] if style == 'acc=1*t' else +terms[0])
+                for t in (terms if style == 'acc=0' else terms[1:]):
+                    acc += t
+            total = sum((sp(t) for t in terms), sympy.Integer(0))
+            den_ok = cls == 'P' or all(t.denom.args and not is_zero(t.denom.tosympy()) for t in terms)
+            if den_ok and not is_zero(sp(acc) - total):
+                viol('denotation-accumulate', f'{style}: the accumulated sum of {[str(t) for t in terms]} denotes {sp(acc)}, expected {total}', op='iadd', operands=[str(t) for t in terms])
+        except ZeroDivisionError:
+            pass
+        after = [state(t) for t in terms]
+        if after != before:
+            viol('operand-mutated', f'{style} over {cls} terms changed a term of the sum: {before} -> {after}', op='iadd', operands=[str(b) for b in before])
+            for t, b in zip(terms, before):
+                if cls == 'P': t.args = b
+                else: t.numer.args, t.denom.args = b
+    # float coefficients that are exact binary fractions (every sum and product below is exact in double precision, so the exact
+    # rational value is the oracle): nothing that is not exactly zero may vanish, tosympy keeps every coefficient exactly
+    dy = [0.5, 0.25, 1.5, 2.0 ** -20, 3.0, -0.5, 2.0 ** -19]
+    big = [2.0 ** 50 + 1, 2.0 ** 50, -(2.0 ** 50), 2.0 ** 50 - 1]        # sums and differences only: like terms that nearly cancel
+    for it in range(60 if tier == 'quick' else 1000):
+        nv = rng.sample(NAMES[:4], 2)
+        opn = rng.choice(['add', 'sub', 'mul'])
+        cset = dy if opn == 'mul' or rng.random() < 0.5 else big
+        def fpoly():
+            return P([[rng.choice(cset)] + sorted(rng.sample(nv, rng.randint(0, 2))) for _ in range(rng.randint(1, 2))]) + P(0)
+        x, y = fpoly(), fpoly()
+        if cset is big and rng.random() < 0.6 and x.args:
+            y = P([[rng.choice(big)] + list(x.args[0][1:])]) + P(0)        # a like term
+        R.count('float-dyadic=' + opn); R.case(('float-dyadic', it, opn, str(x.args), str(y.args)), True)
+        r = x + y if opn == 'add' else x - y if opn == 'sub' else x * y
+        def exact(p_):
+            d = {}
+            for m in p_.args:
+                d[tuple(m[1:])] = d.get(tuple(m[1:]), 0) + Fraction(m[0])
+            return {k: v for k, v in d.items() if v != 0}
+        ex, ey = exact(x), exact(y)
+        if opn == 'mul':
+            want = {}
+            for ka_, va in ex.items():
+                for kb_, vb in ey.items():
+                    k = tuple(sorted(ka_ + kb_)); want[k] = want.get(k, 0) + va * vb
+        else:
+            want = dict(ex)
+            for k, v in ey.items():
+                want[k] = want.get(k, 0) + (v if opn == 'add' else -v)
+        want = {k: v for k, v in want.items() if v != 0}
+        if exact(r) != want:
+            viol('denotation-float', f'{opn} of {x} and {y} (binary-fraction coefficients, exact in double precision) = {r}, exact value {want}', op=opn, operands=[str(x), str(y)])
+        if bool(r) != bool(want) or (r == 0) != (not want):
+            viol('zero-test', f'{r}: bool={bool(r)}, ==0 is {r == 0}, exact value {want}', op=opn, operands=[str(x), str(y)])
+        ts = sympy.expand(r.tosympy())
+        back = {}
+        for term, coef in ts.as_coefficients_dict().items():
+            cv = Fraction(float(coef)) if not coef.is_Rational else Fraction(int(coef.p), int(coef.q))
+            if cv != 0:
+                back[str(term)] = cv
+        wants = {}
+        for k, v in want.items():
+            key = str(sympy.Mul(*[sympy.Symbol(n_) for n_ in k])) if k else '1'
+            wants[key] = v
+        if back != wants:
+            viol('tosympy-float', f'tosympy() of {r} has the coefficients {back}, the stored ones are {wants}', op='tosympy', operands=[str(r)])
     bad, shown = kv.run_cases('C17', cases, imports='Model.Util Model.Poly Theory.Poly')
     for i in bad:
         m = cases[i]['meta']
